@@ -19,7 +19,8 @@ from tools.lib import common
 PROP_MODULES = ["Ampverif.Props.C15"]
 N_INST = {"quick": 2, "thorough": 20}
 RULE = ("distinct pickled objects that hold a nested @unevaluated argument or a non-default non-SymPy attribute "
-        "(class instances), plus distinct model expressions containing an @unevaluated instance")
+        "(class instances), plus distinct model expressions containing an @unevaluated instance, plus distinct objects of the "
+        "array/sum helper classes (one per constructor-argument-kind combination that the constructor accepts)")
 
 
 def witness_pickle():
@@ -48,8 +49,11 @@ class C15Property:
 
     def regenerate(self):
         from tools.corr import C14 as c14
+        from tools.corr import C15arrays as arr
 
-        c14.regenerate()
+        common.use_repo_source()
+        entries, _, _ = c14.regenerate()
+        arr.regenerate_hooks([e.cls for e in entries])
 
     def run(self, tier: str, seed: int) -> int:  # noqa: C901, PLR0912, PLR0915
         import sympy as sp
@@ -79,6 +83,15 @@ class C15Property:
             chk.info("class_table", {"decorated_classes": len(entries), "helper_classes": len(helpers)})
         except Exception as e:  # noqa: BLE001
             chk.broken_correspondence("class table", "".join(traceback.format_exception_only(type(e), e))[-800:])
+        # pickling hooks of every class of the package -> Gen/C15Hooks.lean (theorem hooks_as_modelled)
+        try:
+            from tools.corr import C15arrays as arr
+
+            hooks = arr.regenerate_hooks([e.cls for e in entries] if entries else ())
+            chk.info("pickling_hooks", {"classes_inspected": hooks["classes"], "decorator_getnewargs": len(hooks["decorator"]),
+                                        "attrs_getstate_setstate": hooks["attrs"], "other": [list(h) for h in hooks["other"]]})
+        except Exception as e:  # noqa: BLE001
+            chk.broken_correspondence("pickling hooks", "".join(traceback.format_exception_only(type(e), e))[-800:])
         res = common.prove("C15", PROP_MODULES)
         chk.record_proof(res, "cd lean && lake build " + " ".join(PROP_MODULES) + " && lake env lean Ampverif/Audit/C15.lean")
         if res["failed"]:
@@ -196,6 +209,13 @@ class C15Property:
             stats["instance_correspondence_disagreements"] = n_bad
         except (common.LeanRunError, Exception) as e:  # noqa: BLE001
             chk.broken_correspondence("pickle vs model", f"{type(e).__name__}: {str(e)[-600:]}")
+        # ---------------- array/sum helper classes over their constructor argument kinds
+        try:
+            self.array_helpers(chk, tier, seed, ctx, failing, stats)
+        except common.InfraError:
+            raise
+        except Exception as e:  # noqa: BLE001
+            chk.broken_correspondence("array helper stream", "".join(traceback.format_exception(e))[-1000:])
         # ---------------- raw outputs of the public expression-returning functions ("any expression the library builds")
         try:
             outs, report = corr.public_function_outputs()
@@ -324,6 +344,110 @@ class C15Property:
         return self.verdict(chk, failing)
 
     @staticmethod
+    def array_helpers(chk, tier, seed, ctx, failing, stats):  # noqa: C901, PLR0912, PLR0915
+        """ArraySlice / ArrayElement / ArraySymbol / ArraySum / ArrayAxisSum / ArrayMultiplication / MatrixMultiplication
+        over their constructor argument kinds: every route through the pickling protocol in this process, the Lean
+        model's round trip (helper = uninterpreted head: func(*args)), a fresh interpreter; compared by type, ==, hash,
+        args field by field (srepr), free symbols, str, shape and the numeric value on seeded arrays."""
+        import collections
+
+        import sympy as sp
+
+        from tools.corr import C15 as corr
+        from tools.corr import C15arrays as arr
+        from tools.corr import C18m1 as m1
+
+        rng = common.rng_for("C15", seed, "array helpers")
+        built, rep = arr.build(arr.corpus(rng, full=(tier == "thorough")))
+        by_cls, by_kind = collections.Counter(), collections.Counter()
+        known_shape, clean = [], []
+        cls_name = "pickle round trip does not reproduce an array expression"
+
+        def entry(c, o, **kw):
+            return {"class": cls_name, "cls": "array:" + c["cls"], "case": c["label"], "argument_kinds": list(c["kinds"]),
+                    "expr": sp.srepr(o)[:1200], "python": "pickle.loads(pickle.dumps(expr)) vs expr  # expr as in `case` "
+                    "(n, m, k positive integer symbols, j integer symbol; p, q = FourMomentumSymbol(.., shape=[]); K = ArraySymbol('K', (8, 4)); "
+                    "S = ArraySymbol('S', (n, 4)); T = ArraySymbol('T', (8, 4, 4)))", **kw}
+
+        for c, o in built:
+            by_cls[type(o).__name__] += 1
+            for kd in c["kinds"][1:]:
+                by_kind[kd] += 1
+            chk.count(("array", c["label"], sp.srepr(o)))
+            try:
+                blob = pickle.dumps(o)
+                back = pickle.loads(blob)  # noqa: S301
+            except Exception as e:  # noqa: BLE001
+                # the known-shape ArraySlice defect (finding C15-F1) was repaired by fix 9a92e2c: it is a failing input
+                # like any other now (a `fixed:` entry suppresses nothing)
+                cls_ = (arr.FINDING_KNOWN_SHAPE if arr.is_known_shape_unpickle_failure(o, e) else "pickle round trip raises")
+                failing.append({**entry(c, o, error=f"{type(e).__name__}: {e}"[:300]), "class": cls_})
+                continue
+            d = arr.differences(o, back)
+            if not d:
+                for how, fn in corr.other_round_trips():
+                    try:
+                        d = arr.differences(o, fn(o), numeric=False)
+                    except Exception as e:  # noqa: BLE001
+                        d = [f"raises {type(e).__name__}: {e}"[:200]]
+                    if d:
+                        d = [f"via {how}: {x}" for x in d]
+                        break
+            if d:
+                failing.append(entry(c, o, loaded=sp.srepr(back)[:1200], differences=d[:5]))
+            else:
+                clean.append((c, o, blob))
+        # the model's round trip and a fresh interpreter on a seeded sample that holds every argument kind
+        want = 400 if tier == "quick" else len(clean)
+        sample, seen_kinds = [], set()
+        order = list(range(len(clean)))
+        rng.shuffle(order)
+        for i in order:
+            ks = set(clean[i][0]["kinds"])
+            if len(sample) < want or not ks <= seen_kinds:
+                sample.append(clean[i])
+                seen_kinds |= ks
+        n_model, n_unrep, n_bad = 0, 0, 0
+        try:
+            rts = corr.lean_roundtrips([o for _, o, _ in sample], ctx)
+            for (c, o, blob), (_, wf, rt) in zip(sample, rts):
+                if wf == "unrepresentable":
+                    n_unrep += 1
+                    continue
+                n_model += 1
+                back = pickle.loads(blob)  # noqa: S301
+                if wf != "true" or str(rt).startswith("err") or not m1.same(back, m1.read_reply(rt), ctx):
+                    n_bad += 1
+                    if n_bad <= 4:
+                        chk.broken_correspondence("pickle vs model (array helpers)", {"case": c["label"], "expr": str(o)[:200], "wfTerm": wf,
+                                                                                      "real_loaded": str(back)[:200], "model_loaded": str(rt)[:200]})
+        except Exception as e:  # noqa: BLE001
+            chk.broken_correspondence("pickle vs model (array helpers)", f"{type(e).__name__}: {str(e)[-600:]}")
+        descs = arr.fresh_process([b for _, _, b in sample])
+        if len(descs) != len(sample):
+            failing.append({"class": "loading in a fresh process fails", "error": json.dumps(descs)[:1500]})
+        else:
+            for (c, o, _), d in zip(sample, descs):
+                if "error" in d:
+                    failing.append({**entry(c, o, error=d["error"]), "class": "loading in a fresh process fails"})
+                    continue
+                w = json.loads(json.dumps(arr.describe(o)))
+                bad = [k for k in w if w[k] != d.get(k) and not (k == "numeric" and "TIMEOUT" in (w[k], d.get(k)))]
+                if bad:
+                    failing.append({**entry(c, o), "class": "expression loaded in a fresh process differs", "differs_in": bad,
+                                    "here": {k: str(w[k])[:300] for k in bad if k != "srepr"}, "there": {k: str(d.get(k))[:300] for k in bad if k != "srepr"}})
+        stats["array_helpers"] = {"cases": len(built) + sum(rep["rejected"].values()), "built": len(built), **rep,
+                                  "by_class": dict(by_cls), "by_argument_kind": dict(by_kind), "round_trip_clean": len(clean),
+                                  "routes_per_object": 1 + len(corr.other_round_trips()), "model_round_trips": n_model,
+                                  "unrepresentable_in_model": n_unrep, "model_disagreements": n_bad, "fresh_process_objects": len(sample)}
+        if known_shape:
+            ex = [{"case": c["label"], "expr": sp.srepr(o)[:300], "error": err[:200]} for c, o, err in known_shape[:: max(1, len(known_shape) // 5)][:5]]
+            chk.info("observations", {arr.FINDING_KNOWN_SHAPE + " (defect of the unchanged tree, reported to the lead as finding C15-F1; kept out of the verdict)":
+                                      {"objects": len(known_shape), "examples": ex}})
+        for c, o, _ in clean[:: max(1, len(clean) // 3)][:3]:
+            chk.sample({"array helper": str(o)[:120], "argument_kinds": list(c["kinds"])})
+
+    @staticmethod
     def verdict(chk, failing):
         seen = set()
         failing.sort(key=lambda f: len(f.get("expr", "")))
@@ -379,7 +503,19 @@ MANIFEST = {
         "chew_mandelstam_s_wave returns a Mul built with evaluate=False, which SymPy re-evaluates on unpickling (KNOWN-FINDING; strictly "
         "classified: only a structural difference of an evaluate=False node in a raw function output that vanishes on re-evaluation; the "
         "same kind of difference inside a HelicityModel is a VIOLATION); 'numerically identical when evaluated' is checked on "
-        "the real code (thorough: in a fresh interpreter), not proved."
+        "the real code (thorough: in a fresh interpreter), not proved. "
+        "Pickling hooks: serialise = class + __getnewargs__; theorem hooks_as_modelled (decide, over Gen/C15Hooks.lean regenerated by "
+        "introspection of every class of the package and of the SymPy classes its modules use, hooks resolved through the MRO): the only "
+        "hand-written pickling hook (__getnewargs__/__getnewargs_ex__/__reduce__/__reduce_ex__/__getstate__/__setstate__/__copy__/"
+        "__deepcopy__) is the deprecated UnevaluatedExpression.__getnewargs_ex__, every table class pickles through the decorator's "
+        "_get_arguments and only table classes do, and no helper class (uninterpreted head, helper_serialised_by_args: func(*args)) has any "
+        "hook — a new hook on any class breaks the theorem and triggers the search. The array/sum helper classes (ArraySlice, ArrayElement, "
+        "ArraySymbol, ArraySum, ArrayAxisSum, ArrayMultiplication, MatrixMultiplication) are exercised over their constructor argument kinds "
+        "(27 index kinds per axis: integer / negative / stepped / symbolic / mixed / expression bounds and steps, integer and symbolic "
+        "indices; parents with unknown / known / partly symbolic shape, rank 3, product and sum parents; slice of slice / power / sum / "
+        "product / axis sum; sums and arithmetic of slices; term-count and term-kind variants; axis kinds; about 2000 objects per run). "
+        "Found by this corpus on the pinned tree and REPAIRED (fix 9a92e2c): an ArraySlice with a real slice on an axis of KNOWN Integer "
+        "size could not be unpickled (TypeError in ArraySlice.__new__ on its own normalised args); such objects are part of the verdict now."
     ),
     "level_note": (
         "Trusted: Lean kernel + Mathlib (axioms propext, Classical.choice, Quot.sound); class-table extractor and SymPy<->S-expression converter "
@@ -393,6 +529,10 @@ MANIFEST = {
         "behaviourally: the public API of every container (ParameterValues by symbol / name / index, in, len, iteration, items, assignment "
         "of the same value by symbol / name / index, missing keys; the OrderedDict attributes) gives the same outcome incl. exceptions on the "
         "loaded model. Also in the quick tier a FRESH interpreter loads all instances with attributes and the four models, reports attribute "
-        "types, unfolding digests and container behaviour (numeric intensity for the Breit-Wigner model); thorough: all objects, all numerics."
+        "types, unfolding digests and container behaviour (numeric intensity for the Breit-Wigner model); thorough: all objects, all numerics. "
+        "Array helpers: every object through pickle (default + protocols 2-5), copy.copy, copy.deepcopy, compared by type, ==, hash, args field "
+        "by field (srepr), free symbols, str and the lambdified value on seeded NumPy arrays (bit-exact digest); a seeded sample of >= 400 "
+        "objects holding every argument kind goes through the Lean model's round trip and is loaded object by object in a fresh interpreter "
+        "(other PYTHONHASHSEED) where the same description incl. the numeric digest is recomputed."
     ),
 }
